@@ -120,7 +120,7 @@ def leaf_alphabet(ws, f, mode, max_len, item=False, default_of=None):
     out = list(out)
     if nullable and None not in out:
         out.insert(1, None)
-    if not item and f.has_default and not f.array:
+    if not item and (f.has_default or f.tag is not None) and not f.array:  # a tagged field always has a default (KIP-482)
         d = default_of(f)
         if not any(bridge.same_wire(d, x) for x in out):
             out.insert(1, d)
@@ -155,10 +155,10 @@ class OptN:
 
 
 class ArrN:
-    __slots__ = ("elem", "nullable", "path", "elem_b")
+    __slots__ = ("elem", "nullable", "path", "elem_b", "long")
 
-    def __init__(self, elem, nullable, path, elem_b):
-        self.elem, self.nullable, self.path, self.elem_b = elem, nullable, path, elem_b
+    def __init__(self, elem, nullable, path, elem_b, long=False):
+        self.elem, self.nullable, self.path, self.elem_b, self.long = elem, nullable, path, elem_b, long
 
 
 def x_alternatives(ws, top=False):
@@ -190,17 +190,18 @@ def x_alternatives(ws, top=False):
     return alts
 
 
-def build(ws, mode="value", max_len=16384, path="", frozen_below=None, depth=0, default_of=None):
+def build(ws, mode="value", max_len=16384, path="", frozen_below=None, depth=0, default_of=None, long_arrays=False):
     default_of = default_of or bridge.wire_default
     children = []
     for f in ws.fields:
         p = f"{path}.{f.name}"
         if f.nested is not None:
-            elem = build(f.nested, mode, max_len, p, frozen_below, depth + 1, default_of)
+            elem = build(f.nested, mode, max_len, p, frozen_below, depth + 1, default_of, long_arrays)
         else:
             elem = Leaf(p, leaf_alphabet(ws, f, mode, max_len, item=f.array, default_of=default_of))
         if f.array:
-            node = ArrN(elem, f.nullable, p, variant_b(elem))
+            # 127 / 128 items: the compact count (n + 1) moves from one varint byte to two
+            node = ArrN(elem, f.nullable, p, variant_b(elem), long=long_arrays and ws.flexible)
         elif f.nested is not None and f.nullable:
             node = OptN(elem, p)
         else:
@@ -285,6 +286,10 @@ def gen(node, budget):
             for c, v, e in gen(node.elem, budget - 1):
                 yield (c + 1, [v, v], e + ((node.path, "len2same"),))
                 yield (c + 1, [v, node.elem_b], e + ((node.path, "len2diff"),))
+            if node.long:
+                b = base_value(node.elem)
+                yield (1, [b] * 127, ((node.path, "len127"),))
+                yield (1, [b] * 128, ((node.path, "len128"),))
         return
     if isinstance(node, DefaultFirst):
         yield from gen(node.child, budget)
@@ -328,7 +333,7 @@ def poly(node, budget):
         return add(poly(node.child, budget), x_times(one, 1))
     if isinstance(node, ArrN):
         pe = poly(node.elem, budget)
-        return add(add(pe, x_times(pe, 2)), x_times(one, 2 if node.nullable else 1))
+        return add(add(pe, x_times(pe, 2)), x_times(one, (2 if node.nullable else 1) + (2 if node.long else 0)))
     if isinstance(node, DefaultFirst):
         return add(poly(node.child, budget), x_times(one, 1))
     raise HarnessError("poly")
@@ -355,13 +360,13 @@ def explore(ws, k, mode="value", max_len=16384, own_k=None, max_states=None):
 
 
 class Explorer:
-    def __init__(self, ws, k, mode="value", max_len=16384, own_k=None, cap=None, default_of=None):
+    def __init__(self, ws, k, mode="value", max_len=16384, own_k=None, cap=None, default_of=None, long_arrays=False):
         self.ws, self.k, self.mode = ws, k, mode
-        self.tree = build(ws, mode, max_len, default_of=default_of)
+        self.tree = build(ws, mode, max_len, default_of=default_of, long_arrays=long_arrays)
         self.own_tree = None
         self.own_k = own_k
         if own_k is not None and own_k > k:
-            self.own_tree = build(ws, mode, max_len, frozen_below=0, default_of=default_of)
+            self.own_tree = build(ws, mode, max_len, frozen_below=0, default_of=default_of, long_arrays=long_arrays)
         self.cap = cap
         self.edit_sets = 0
         self.transitions = 0
